@@ -35,12 +35,7 @@ func (f *Fixture) MkTx(st *state.StateDB, number *big.Int, op string) (*types.Tr
 		mod := params.StakingModuleAddress
 		return sign(from, &mod, new(big.Int), 3000000, data)
 	}
-	var name, arg string
-	if n, _ := fmt.Sscanf(op, "%[^(](%[^)])", &name, &arg); n < 1 {
-		name = op
-	}
-	// fmt's %[ is not supported: parse by hand
-	name, arg = op, ""
+	name, arg := op, ""
 	for i := 0; i < len(op); i++ {
 		if op[i] == '(' {
 			name, arg = op[:i], op[i+1:len(op)-1]
@@ -53,6 +48,8 @@ func (f *Fixture) MkTx(st *state.StateDB, number *big.Int, op string) (*types.Tr
 		return sign(f.P, &f.D2.Addr, big.NewInt(12345), 21000, nil)
 	case "store": // contract call that writes storage and carries value
 		return sign(f.P, &f.KStore, big.NewInt(7), 100000, nil)
+	case "clear": // contract call that clears a storage slot (gas refund)
+		return sign(f.P, &f.KClear, new(big.Int), 100000, nil)
 	case "revert": // contract call that reverts (value must come back)
 		return sign(f.P, &f.KRevert, big.NewInt(9), 100000, nil)
 	case "create": // contract creation: init code returns 1 byte of runtime code
